@@ -848,7 +848,8 @@ def part_guard(ctx, rec, wb, drv, nextra):
            G.build_partial_s_unknown(rng, "g_T16", "T16"), G.build_partial_s_unknown(rng, "g_UE14_3", "UE14", n=3),
            G.build_trl_like_single(rng, "g_trl_like", "UE10"),
            G.build_trl_partial(rng, "g_partial", "T8", "single2_double_through", (0, 1, 2)),
-           G.build_trl(rng, "g_trl", "U8", nf=2)]
+           G.build_trl(rng, "g_trl", "U8", nf=2),
+           G.build_trl_shaped(rng, "g_line2", "T8", "line_two_unknowns")]    # different unknowns in S12 and S21
     for k in range(nextra):
         typ = rng.choice(G.TYPES)
         n = rng.choice([1, 2]) if typ in ("T16", "U16") else rng.choice([1, 2, 3])
